@@ -42,6 +42,40 @@ def int_type_contract():
     return Contract(MOD, "determine_optimal_int_type", make_args, ensures=ensures, raises=raises, definedness="P")
 
 
+def cast_contract(dtype="float"):
+    """cast_distance_matrix_to_optimal_int_type on a matrix of finite non-negative distances (float64 from shortest_path, or integer):
+    same shape, every entry keeps its integer value - in particular the chosen type is wide enough for every entry, not only for one
+    (engine obligation on sized integer casts: no wrap-around) - in a fresh buffer; more than 2^63 - 1 is rejected"""
+    def make_args(eng):
+        n = eng.fresh_int("n_DX", lo=1)
+        DX = fresh_symbolic("DX", (n, n), dtype=dtype, origin="param:DX", eng=eng, **({"finite": True} if dtype == "float" else {}))
+        return {"DX": DX}, {"n": n, "DX": DX}
+
+    def requires(a):
+        i, j = z3.Ints("cq_i cq_j")
+        DX = a.g["DX"]
+        return [("entries_non_negative", z3.ForAll([i, j], z3.Implies(z3.And(i >= 0, i < to_z3(a.g["n"]), j >= 0, j < to_z3(a.g["n"])), DX.uf(i, j) >= 0),
+                                                   patterns=[DX.uf(i, j)]))]
+
+    def raises(a):
+        e, DX = a.eng, a.g["DX"]
+        i, j = z3.Ints("rq_i rq_j")
+        big = z3.Exists([i, j], z3.And(i >= 0, i < to_z3(a.g["n"]), j >= 0, j < to_z3(a.g["n"]), DX.uf(i, j) > 2 ** 63 - 1))
+        return [("some_entry_exceeds_int64", "ValueError", big)]
+
+    def ensures(a, res):
+        from pyvc.values import to_int_trunc
+        e, DX = a.eng, a.g["DX"]
+        i = e.fresh_int("qi", lo=0, hi=a.g["n"])
+        j = e.fresh_int("qj", lo=0, hi=a.g["n"])
+        return [("same_shape", b_and(res.ndim == 2, lift(res.shape[0]) == a.g["n"], lift(res.shape[1]) == a.g["n"]), "P"),
+                ("integer_typed", res.kind == "int", "P"),
+                ("every_entry_keeps_its_integer_value", lift(res.get(i, j)) == to_int_trunc(DX.get(i, j)), "P"),
+                ("result_is_a_fresh_buffer", not (res.buf.origin or "").startswith("param:"), "P")]
+    return Contract(MOD, "cast_distance_matrix_to_optimal_int_type", make_args, requires=requires, ensures=ensures, raises=raises, definedness="P",
+                    variant="dtype=%s" % dtype)
+
+
 # ---- dependency contracts for SciPy's graph routines (D10, D20), installed per path through the ghost state
 class _Sps:
     def issparse(self, x):
@@ -261,7 +295,7 @@ def rng_free_lower_bound():
 
 
 def all_contracts(tier):
-    cs = [int_type_contract(), make_dm_contract("connected"), make_dm_contract("disconnected"), gh_contract("pair"), gh_contract("collection3"),
+    cs = [int_type_contract(), cast_contract("float"), cast_contract("int"), make_dm_contract("connected"), make_dm_contract("disconnected"), gh_contract("pair"), gh_contract("collection3"),
           gh_contract("collection1"), rng_free_lower_bound()]
     C = Contract
     table = {(MOD, "estimate"): C(MOD, "estimate", None, summary=estimate_summary),
